@@ -329,22 +329,127 @@ func (fr *frame) writeTo(w value, s value) {
 	call(fr.i, fr, 0, m, []value{it.v, nb})
 }
 
+// unfinishedVerb: the format text ends inside a verb ("%", "%-", "%05" ...).
+func unfinishedVerb(f string) bool {
+	for i := 0; i < len(f); i++ {
+		if f[i] != '%' {
+			continue
+		}
+		i++
+		for i < len(f) && strings.IndexByte("+-# 0123456789.", f[i]) >= 0 {
+			i++
+		}
+		if i >= len(f) {
+			return true
+		}
+	}
+	return false
+}
+
+// symSprintfV formats with a format string that may itself hold symbolic bytes. Every symbolic
+// byte is decided (a fork of the path): either it is not '%' and stands for itself in the output,
+// or it is '%' and the byte after it - if symbolic as well - is decided among the verbs '%', 's',
+// 'd', 'v', 'q' (any other verb character is reported as unsupported, i.e. inconclusive). The
+// concrete chunks between literal symbolic bytes are formatted with the operands they consume.
+func (fr *frame) symSprintfV(fv value, args []value) (value, []int) {
+	if s, ok := fv.(string); ok {
+		return fr.symSprintf(s, args)
+	}
+	f := fr.f()
+	is := func(c value, b byte) bool {
+		return fr.i.p.Branch(strEqTerm(f, mkStr([]value{c}), string([]byte{b})))
+	}
+	b := strBytes(fv)
+	var out value = ""
+	var chunk []byte
+	var wraps []int
+	argi := 0
+	flush := func(last bool) {
+		cf := string(chunk)
+		chunk = chunk[:0]
+		verbs, ok := parseFormat(cf)
+		if !ok {
+			panic(unsupported("symbolic format string with indexed operands"))
+		}
+		lo := argi
+		if lo > len(args) {
+			lo = len(args)
+		}
+		hi := len(args)
+		if !last && lo+len(verbs) < hi {
+			hi = lo + len(verbs)
+		}
+		s, w := fr.symSprintf(cf, args[lo:hi])
+		for _, x := range w {
+			wraps = append(wraps, x+lo)
+		}
+		argi += len(verbs)
+		out = strConcat(out, s)
+	}
+	for k := 0; k < len(b); k++ {
+		if c, ok := b[k].(uint8); ok {
+			chunk = append(chunk, c)
+			if c == '%' && k+1 < len(b) {
+				if _, conc := b[k+1].(uint8); !conc {
+					v := byte(0)
+					for _, cand := range []byte("%sdvq") {
+						if is(b[k+1], cand) {
+							v = cand
+							break
+						}
+					}
+					if v == 0 {
+						panic(unsupported("symbolic verb character in a format string"))
+					}
+					chunk = append(chunk, v)
+					k++
+				}
+			}
+			continue
+		}
+		if !is(b[k], '%') {
+			// a literal byte: it must not sit inside an unfinished verb of the chunk before it
+			if unfinishedVerb(string(chunk)) {
+				panic(unsupported("symbolic byte inside a format verb"))
+			}
+			flush(false)
+			out = strConcat(out, mkStr([]value{b[k]}))
+			continue
+		}
+		chunk = append(chunk, '%')
+		if k+1 == len(b) {
+			break
+		}
+		if c, conc := b[k+1].(uint8); conc {
+			chunk = append(chunk, c)
+			k++
+			continue
+		}
+		v := byte(0)
+		for _, cand := range []byte("%sdvq") {
+			if is(b[k+1], cand) {
+				v = cand
+				break
+			}
+		}
+		if v == 0 {
+			panic(unsupported("symbolic verb character in a format string"))
+		}
+		chunk = append(chunk, v)
+		k++
+	}
+	flush(true)
+	return out, wraps
+}
+
 func init() {
 	intrinsics["fmt.Sprintf"] = func(fr *frame, fn *ssa.Function, a []value) value {
-		format, ok := a[0].(string)
-		if !ok {
-			panic(unsupported("symbolic format string"))
-		}
-		s, _ := fr.symSprintf(format, fr.fmtArgs(a[1]))
+		s, _ := fr.symSprintfV(a[0], fr.fmtArgs(a[1]))
 		return s
 	}
 	intrinsics["fmt.Errorf"] = func(fr *frame, fn *ssa.Function, a []value) value {
-		format, ok := a[0].(string)
-		if !ok {
-			panic(unsupported("symbolic format string"))
-		}
 		args := fr.fmtArgs(a[1])
-		s, wraps := fr.symSprintf(format, args)
+		s, wraps := fr.symSprintfV(a[0], args)
 		return fr.newFmtError(s, args, wraps)
 	}
 	sprint := func(ln bool) intrinsic {
@@ -385,11 +490,7 @@ func init() {
 	intrinsics["fmt.Sprint"] = sprint(false)
 	intrinsics["fmt.Sprintln"] = sprint(true)
 	intrinsics["fmt.Fprintf"] = func(fr *frame, fn *ssa.Function, a []value) value {
-		format, ok := a[1].(string)
-		if !ok {
-			panic(unsupported("symbolic format string"))
-		}
-		s, _ := fr.symSprintf(format, fr.fmtArgs(a[2]))
+		s, _ := fr.symSprintfV(a[1], fr.fmtArgs(a[2]))
 		fr.writeTo(a[0], s)
 		return tuple{strLen(s), iface{}}
 	}
